@@ -29,9 +29,9 @@ type Req struct {
 
 func genCase(t *rapid.T) Case {
 	var c Case
-	big := rapid.IntRange(0, 199).Draw(t, "big") == 0
+	big := rapid.IntRange(0, 39).Draw(t, "big") == 39
 	o := gen.CorpusOpts{MaxDocs: 40}
-	if rapid.IntRange(0, 4).Draw(t, "tiny") == 0 {
+	if rapid.IntRange(0, 4).Draw(t, "tiny") == 4 {
 		o.MaxDocs = 6
 	}
 	if big {
